@@ -88,6 +88,13 @@ fn calculate_lookup_table(fields: &[RecordField]) -> BTreeMap<String, usize> {
         .map(|(i, field)| (field.name.clone(), i))
         .collect();
     assert_eq!(map.len(), fields.len(), "Duplicate field names found");
+    // The parser also enters the aliases of the fields, a name always wins over an alias
+    let mut map = map;
+    for (i, field) in fields.iter().enumerate() {
+        for alias in &field.aliases {
+            map.entry(alias.clone()).or_insert(i);
+        }
+    }
     map
 }
 
